@@ -41,4 +41,89 @@ PROPS = {
         ],
         "assumptions": ["sequential consistency of the mutex/condvar/atomic operations (shuttle and the Lean LTS both assume it)"],
     },
+    "C07": {
+        "id": "C07",
+        "lean_modules": ["LzmaVerif.Props.C07"],
+        "theorems": [
+            "LzmaVerif.Props.C07.bcj_writer_partition_free",
+            "LzmaVerif.Props.C07.bcj_reader_schedule_free",
+            "LzmaVerif.Props.C07.zero_length_reads_are_harmless",
+            "LzmaVerif.Props.C07.delta_partition_free",
+            "LzmaVerif.Props.C07.container_cutting_partition_free",
+            "LzmaVerif.BcjStream.bcj_restartable",
+        ],
+        "level_text": "Lean theorems for every input, partition, buffer-size sequence and short-read pattern: the streaming BCJ writer used by XZWriter and the BCJReader buffer machine (4096-byte buffer, pos/filtered/unfiltered) equal one-shot filtering for all eight architectures (all eight filter models are proved restartable), zero-length reads change nothing, the Delta coder composes over concatenation, container cutting depends on byte counts only. The streaming models are executed against the real BCJWriter(streaming)/BCJReader with random partitions, buffer schedules and short inner reads on every check; all writers/readers of the crate are additionally run through the partition/buffer-size oracle. Partial: no theorem yet for the LZMA/LZMA2 ring buffer vs read sizes and for the encoder window vs write partition (oracle + C01 correspondence only).",
+        "level_note": "Trusted: Lean kernel; hand-written models Model/Stream.lean, Model/BcjStream.lean, Model/Filters.lean (correspondence sampled per run); harness. Known finding: the standalone BCJWriter (public constructors) passes the tail of every write through unfiltered (KNOWN_FINDINGS.jsonl).",
+        "technique": "Lean 4 proof (stream equivalence by invariant over the buffer machine) + differential correspondence + partition oracle",
+    },
+    "C08": {
+        "id": "C08",
+        "engine": "vhmt",
+        "lean_modules": ["LzmaVerif.Props.C08"],
+        "theorems": [
+            "LzmaVerif.Props.C08.mt_delivers_in_order",
+            "LzmaVerif.Props.C08.mt_nothing_lost",
+            "LzmaVerif.Props.C08.mt_end_of_stream_is_complete",
+            "LzmaVerif.Props.C08.mt_output_schedule_free",
+        ],
+        "level_text": "Lean theorems over the MT protocol LTS (coordinator, workers, queue, channel, reorder buffer, error store), for every number of units, every unit outcome, every worker limit and EVERY schedule: units are delivered in order 0,1,2,... without gaps or duplicates, a healthy dispatched unit is in exactly one place, end-of-stream implies all units delivered and none failed, any two complete runs deliver the same sequence. Per-unit equivalence with the single-threaded codec is C01/C02. The real four MT types are run under shuttle (random + PCT schedulers) and compared with the single-threaded result.",
+        "level_note": "Trusted: Lean kernel; Model/MT.lean is a hand transcription (queue operations and set_error atomic; their fine-grained implementation is Model/WorkQueue.lean / C10); tie to the code: sync-skeleton translator for the worker loops (C09) + shuttle executions; sequential consistency only. Cutting of LZMA2 streams into units by the MT reader is validated by the oracle, not proved.",
+        "technique": "Lean 4 proof (26-clause inductive invariant over an LTS) + shuttle schedule exploration",
+    },
+    "C09": {
+        "id": "C09",
+        "engine": "vhmt",
+        "lean_modules": ["LzmaVerif.Props.C09"],
+        "theorems": [
+            "LzmaVerif.Props.C09.mt_call_never_blocks_forever",
+            "LzmaVerif.Props.C09.mt_every_schedule_is_finite",
+            "LzmaVerif.Props.C09.mt_failure_is_reported",
+            "LzmaVerif.Props.C09.pinned_empty_input_hangs",
+            "LzmaVerif.Props.C09.worker_error_paths_wake_coordinator",
+        ],
+        "level_text": "Lean theorems over the MT protocol LTS for every configuration and EVERY schedule: whenever no thread can move the coordinator is outside a call (no deadlock inside read), every schedule has at most 26*units + 3*maxWorkers + 20 steps (termination under every scheduler), a failed/panicked unit or failed source can never end in end-of-stream; witness: the pinned code's hang on empty input. worker_error_paths_wake_coordinator is re-proved on every run against the worker loops re-extracted from the four *_mt.rs files (panic guard first; every set_error followed by the wake-up send). Real code under shuttle with corrupt, truncated, empty and unterminated inputs: a deadlock or a success on bad input is a violation.",
+        "level_note": "Trusted: as C08. The hypothesis 'a cleanly ending source has produced at least one unit' reflects LZMA2 (end marker closes a unit) and LZIP (scan rejects zero members); it is needed (witness theorem).",
+        "technique": "Lean 4 proof (invariant + termination measure) + source-skeleton translator + shuttle",
+    },
+    "C13": {
+        "id": "C13",
+        "lean_modules": ["LzmaVerif.Props.C13"],
+        "theorems": [
+            "LzmaVerif.Props.C13.mt_output_is_schedule_free",
+            "LzmaVerif.Props.C13.unit_cutting_depends_on_bytes_only",
+            "LzmaVerif.Props.C13.filter_output_partition_free",
+        ],
+        "level_text": "Lean theorems: MT output order is independent of schedule and worker count, unit cutting depends on byte counts only, the BCJ stage is partition-free. The single-threaded encoder's determinism and partition independence are decided by the oracle (two runs with perturbed allocator state + random partitions must be byte-identical) and by the C01 correspondence (the Lean model, a function, reproduces the real bytes from the parse). Partial: partition independence of the match finder / parser is observed, not proved.",
+        "level_note": "Trusted: Lean kernel, models as in C07/C08; dependence on uninitialised memory is outside the model (checked by the repeated-run oracle only).",
+        "technique": "Lean 4 proof + repeated-run / partition oracle",
+    },
+    "C17": {
+        "id": "C17",
+        "lean_modules": ["LzmaVerif.Props.C17"],
+        "theorems": [
+            "LzmaVerif.Props.C17.enc_estimate_sound",
+            "LzmaVerif.Props.C17.enc_estimate_tight",
+            "LzmaVerif.Props.C17.lzma_dec_estimate",
+            "LzmaVerif.Props.C17.lzma2_dec_estimate",
+            "LzmaVerif.Props.C17.mem_limit_enforced",
+        ],
+        "level_text": "Lean theorems for every dictionary size 4 KiB..1 GiB, lc<=8, lp<=4, pb<=4, nice 8..273, both modes and match finders: the sum of all heap allocations of the encoder model is at most the estimate and the estimate exceeds it by < 512 KiB; the same for the LZMA/LZMA2 decoder estimates; the memory-limit decision is limit < need. The allocation model is tied to the code on every run: estimator values and the sorted list of ALL real allocations >= 4 KiB (counting global allocator) must equal the model's on a grid; the measured peak must respect both inequalities.",
+        "level_note": "Trusted: Lean kernel; Model/Mem.lean (transcription of the estimator formulas and of the constructors' allocations; equality with real allocations sampled on a grid); allocator overhead and stack usage are not modelled.",
+        "technique": "Lean 4 proof (linear arithmetic over the allocation model) + counting-allocator correspondence",
+    },
+    "C18": {
+        "id": "C18",
+        "lean_modules": ["LzmaVerif.Props.C18"],
+        "theorems": [
+            "LzmaVerif.Props.C18.xz_blocks",
+            "LzmaVerif.Props.C18.lzip_members",
+            "LzmaVerif.Props.C18.mt_units",
+            "LzmaVerif.Props.C18.cutting_is_partition_free",
+            "LzmaVerif.Props.C18.expected_size_honoured",
+            "LzmaVerif.Props.C18.effective_limit_ge_two",
+        ],
+        "level_text": "Lean theorems for every limit and every sequence of write-call lengths: XZ blocks, LZIP members and MT units are exactly full blocks followed by the remainder (hence bounded by the limit, all but the last full, nothing lost), independent of the partition; a .lzma writer with an expected size finishes iff exactly that many bytes were written. The splitter model is executed against the sizes parsed from the real output (XZ index, LZIP trailers, LZMA2 chunk headers) and the real write/finish results on every check; chunk_count/member_count of the MT readers are checked by the oracle.",
+        "level_note": "Trusted: Lean kernel; Model/Split.lean (byte-count abstraction of the write loops; correspondence sampled per run).",
+        "technique": "Lean 4 proof (induction over write calls) + differential correspondence + size oracle",
+    },
 }
